@@ -186,7 +186,7 @@ public:
   template<class Matrix, class Scalar>
   static void fillDiag(Matrix& M, Scalar x)
   {
-    for (size_t i = 0; i < M.getNumberOfRows(); i++)
+    for (size_t i = 0; i < M.getNumberOfRows() && i < M.getNumberOfColumns(); i++)
     {
       M(i, i) = x;
     }
